@@ -317,6 +317,8 @@ def run_api_frontend(spec, size):
     try:
         if spec['front_end'] == 'legacy':
             return frontends.run_legacy(spec)
+        if spec['front_end'] == 'procpool_full':
+            return frontends.run_procpool_full(spec)  # through the real ProcessPoolDownloader object (its call-time validation)
         return frontends.run_procpool(spec)
     finally:
         FakeS3.make_client = orig_make
